@@ -196,11 +196,10 @@ def d5_persistence(chk, repo):
     v = FV(repo, "region.Region.to_dict")
     r, t = _single_return(v)
     keys = {}
-    if (v.ctx.head_of(t) or ("",))[0] == "dict":
-        for it in v.ctx.args_of(t):
-            k, val = v.ctx.args_of(it)
-            if is_str(v.ctx, k):
-                keys[v.ctx.head_of(k)[1]] = val
+    from ..lib import mapping_entries
+    for k, val, conds in mapping_entries(v.ctx, t):       # a dict display, dict(key=value, ...), element stores ...
+        if is_str(v.ctx, k) and not conds:
+            keys[v.ctx.head_of(k)[1]] = val
     init = repo.func("region.Region.__init__")
     named = set(init.named_params) - {"self"}
     kw_read = set()
